@@ -108,8 +108,9 @@ def gen_cases(ctx):
     # sizes beyond small-integer ranges on every run: > 255 unknowns through the model as well, > 32767 unknowns against the
     # theorem conclusions only (the model evaluation of 2 million Hessian entries is out of reach for coqc)
     cases.append(dict(src='structured', Nx=r.randrange(17, 20), Ny=r.randrange(17, 20), order=1, dim=1, kind='random', bcseed=r.randrange(1 << 30)))
-    cases.append(dict(src='structured', Nx=106, Ny=r.randrange(106, 110), order=1, dim=3, kind=r.choice(['single', 'random', 'repeated']),
-                      bcseed=r.randrange(1 << 30), nomodel=True))
+    nx, ny = 110, r.randrange(110, 114)
+    big = [([r.randrange(nx * ny) for _ in range(r.randrange(50, 400))], r.randrange(3)) for _ in range(r.randrange(1, 4))]
+    cases.append(dict(src='structured', Nx=nx, Ny=ny, order=1, dim=3, kind='random', ebcs=big, bcseed=r.randrange(1 << 30), nomodel=True))   # > 32767 unknowns
     return cases
 
 
